@@ -25,7 +25,7 @@ EXHAUSTIVE_SUBDOMAINS = []
 ASSUMPTIONS = ["pulse samples carry the amplitude plus a small share of the noise; low samples carry noise only", "regime R2 (noise between 0.2 x and 0.316 x the weakest pulse, i.e. 10-13.5 dB SNR) was the recorded finding eof-threshold-below-noise until fix b07124f; it is now judged as strictly as R1",
                "R1 = noise peak below the demodulator's own end-of-frame threshold (0.2 x strongest pulse of the frame)"]
 REQUIRED = ["r1_buffers", "r2_buffers", "second_buffer", "second_buffer_short_tail", "min_gap_after_short", "min_gap_after_long", "df17", "df20", "df21", "df4", "df5", "df11", "offset_even", "offset_odd",
-            "corrupted_df17_rejected", "pure_noise", "multi_frame"]
+            "corrupted_df17_rejected", "pure_noise", "multi_frame", "sessions", "session_buffer_11_or_later"]
 
 
 def reader():
@@ -161,7 +161,75 @@ def m_buffer(ctx, case):
         ctx.sample({"regime": regime, "noise": [case["fam"], case["L"], case["P"]], "samples": len(buf), "frames": exp[:3], "returned": got[:3]})
 
 
-MONITORS = {"buffer": m_buffer}
+def m_session(ctx, case):
+    """one reader over many consecutive buffers: an ordinary first buffer, then busy ones (strong short replies at the
+    minimum spacing from the first to the last sample, a few weak replies among them) - state kept between buffers
+    (running noise floor, left-over samples) must not cost a frame in ANY buffer of the run"""
+    import random as _r
+    rng = _r.Random(case["bseed"])
+    r = reader()
+    P = case["P"]
+    for bi, frames in enumerate(case["buffers"]):
+        sub = {"fam": "uniform", "L": P / 2, "P": P, "lead": case["leads"][bi], "tail": case["tails"][bi], "frames": frames}
+        buf, exp, info = build(rng, sub)
+        r.signal_buffer.extend(buf)
+        res = call(r._process_buffer)
+        ctx.ev()
+        short = {"buffer_index": bi, "buffers": len(case["buffers"]), "P": P, "bseed": case["bseed"], "noise_floor": getattr(r, "noise_floor", None),
+                 "frames": [(f["start"], f["n"], f["amp"], f["hex"]) for f in info][:40]}
+        if res[0] != "ok" or not isinstance(res[1], list):
+            ctx.violation("process_buffer-raises-%s" % (res[1] if res[0] != "ok" else "shape"), observed=repr(res[1:])[:200], **short)
+            return
+        got = [m[0] for m in res[1]]
+        if got != exp:
+            missing = [e for e in exp if e not in got]
+            extra = [g for g in got if g not in exp]
+            key = "frame-lost" if missing and not extra else "frame-corrupted-or-spurious" if extra else "frames-reordered-or-duplicated"
+            ctx.violation(key + "-in-later-buffer-of-a-session", missing=missing[:5], extra=extra[:5],
+                          missing_amplitudes=sorted(set(f["amp"] for f in info if f["hex"].upper() in missing))[:5], **short)
+            return
+        ctx.hit("session_buffers")
+        if bi >= 10:
+            ctx.hit("session_buffer_11_or_later")
+    ctx.hit("sessions")
+    ctx.nontrivial(("s", case["bseed"]))
+
+
+def mksession(rng):
+    nb = rng.randint(12, 15)
+    P = rng.choice((0.02, 0.04, 0.05))
+    buffers, leads, tails = [], [], []
+    for bi in range(nb):
+        fr = []
+        if bi == 0 or (bi < 3 and rng.random() < 0.5):
+            for _ in range(rng.randint(1, 4)):      # ordinary buffer: plenty of quiet 100 us windows
+                hx, n = rand_frame(rng)
+                fr.append({"hex": hx, "amp": rng.uniform(0.3, 1.4), "gap": rng.randint(2 * n, 900), "valid": True})
+            leads.append(rng.randint(200, 700))
+            tails.append(600 + rng.randrange(300))
+        else:
+            lead = rng.choice((0, 1, 2, 17, 50))
+            pos, nweak = lead, 0
+            wmax = rng.choice((0, 0, 1, 1, 2)) if bi < 10 else rng.choice((1, 2, 3))
+            for k in range(rng.randint(40, 70)):    # busy buffer: no aligned 100 us window is free of pulses
+                hx, n = rand_frame(rng, rng.choice((4, 5, 11)))
+                # a few weak replies, preferably lying across a 100 us window boundary (so that every window they touch
+                # also holds energy of a strong neighbour)
+                straddles = 125 <= pos % 200 <= 147
+                weak = nweak < wmax and 3 < k and ((straddles and rng.random() < 0.7) or rng.random() < 0.003)
+                nweak += weak
+                gap = rng.choice((112, 113, 114, 114, 120))
+                fr.append({"hex": hx, "amp": rng.uniform(0.30, 0.32) if weak else rng.choice((1.4, 1.4, rng.uniform(1.2, 1.4))),
+                           "gap": gap, "valid": True})
+                pos += 16 + 2 * n + gap
+            fr[-1]["gap"] = rng.choice((0, 2, 40, 112))
+            leads.append(lead)
+            tails.append(0)
+        buffers.append(fr)
+    return {"buffers": buffers, "leads": leads, "tails": tails, "P": P, "bseed": rng.getrandbits(40)}
+
+
+MONITORS = {"buffer": m_buffer, "session": m_session}
 
 
 def rand_frame(rng, kind=None):
@@ -243,3 +311,5 @@ def cases(ctx):
         yield "buffer", mkcase(rng, "R2")
     for k in range(ctx.share(200 if quick else 5000)):
         yield "buffer", mkcase(rng, "noise", 0)
+    for k in range(ctx.share(48 if quick else 800)):
+        yield "session", mksession(rng)
